@@ -516,6 +516,11 @@ namespace GeographicLib {
           }
         }
         node.Check(numpoints, treesize, bucket);
+        // The children of a node precede it in the tree (see init).  Checking
+        // this excludes cycles, which would cause Search to loop for ever.
+        if (node.index >= 0 &&
+            !( node.data.child[0] < i && node.data.child[1] < i ))
+          throw GeographicLib::GeographicErr("Bad child pointers");
         tree.push_back(node);
       }
       _tree.swap(tree);
